@@ -217,6 +217,20 @@ CLAIMED["C11"] = dict(
     technique="Lean 4 proof (permutation invariance of the set-iterating folds, sort uniqueness) + multi-process differential run of the real code",
     design="DESIGN.md#c11",
 )
+CLAIMED["C07"] = dict(
+    engine="E-modify",
+    text="Lean theorems about the scope specification (it is the property): an invocation happens for exactly the "
+    "(registration, block) pairs where the scope designates the block, at the offset its position prescribes; that "
+    "offset is 0 or the end of the non-terminator instructions, an instruction boundary not after the terminator; "
+    "inside a block invocations are ordered by offset and at one offset by registration order (also across "
+    "passes). Oracle: instrumented patches with a unique marker per invocation registered through every scope "
+    "kind, position and function filter on generated modules, in one context or two PassManager passes; the "
+    "recorded InsertionContexts against the specification's invocation list, every marker exactly once in the "
+    "output, the output bytes against the listing specification. Partial: the resolution code itself "
+    "(scopes.py / modifications_for_block / resolve_offsets) is tied by the oracle, there is no separate model.",
+    technique="Lean 4 proof (properties of the executable specification) + executable-spec oracle on the real invocations and output bytes",
+    design="DESIGN.md#c07",
+)
 
 ALL = ["C%02d" % i for i in range(1, 21)]
 
@@ -258,7 +272,7 @@ def main():
         "engines": [
             {"name": "E-abi", "path": "lean/GtirbVerif/Model/Abi", "serves_properties": ["C16", "C17"], "kind_free_text": "abstract machine + Lean models of _allocate_patch_registers, the four prologue/epilogue generators and CallPatch; tables regenerated from abi._ABIS"},
             {"name": "E-adt", "path": "lean/GtirbVerif/Model/Adt", "serves_properties": ["C20", "C09"], "kind_free_text": "Lean models of ReferenceCache, ReturnEdgeCache, make_return_cache, BlockOrdering, OffsetMapping, IdentitySet with refinement proofs"},
-            {"name": "E-modify", "path": "lean/GtirbVerif/Model/IR", "serves_properties": ["C01", "C02", "C03", "C04", "C05", "C06", "C08", "C09", "C11"], "kind_free_text": "abstract GTIRB IR + Lean models of edit_byte_interval, split_block, are_joinable/join_blocks, remove_block, insert, delete, _cleanup_modified_blocks, the offset loop of _apply_modifications; listing specification (Spec/Listing*.lean)"},
+            {"name": "E-modify", "path": "lean/GtirbVerif/Model/IR", "serves_properties": ["C01", "C02", "C03", "C04", "C05", "C06", "C07", "C08", "C09", "C11"], "kind_free_text": "abstract GTIRB IR + Lean models of edit_byte_interval, split_block, are_joinable/join_blocks, remove_block, insert, delete, _cleanup_modified_blocks, the offset loop of _apply_modifications; listing specification (Spec/Listing*.lean)"},
             {"name": "E-intervals", "path": "lean/GtirbVerif/Model/Intervals", "serves_properties": ["C10"], "kind_free_text": "Lean model of split_byte_interval / join_byte_intervals with the round-trip theorem"},
             {"name": "E-dwarf", "path": "lean/GtirbVerif/Model/Dwarf", "serves_properties": ["C14", "C15"], "kind_free_text": "Lean model of dwarf/_encoders,_encodable,expr,cfi,cfi_eval + regenerated tables"},
         ],
